@@ -105,7 +105,7 @@ EVAL_REL = {
     # C02 progress: only documented failures, exactly when the semantics says so, never an internal fault
     "C02": per_backend("nofault", "failclass", "nofail", "specstuck") | {"total"},
     # C03 back ends agree with each other (and with the specification's outcome and log)
-    "C03": per_backend("value", "log", "failclass", "nofail", "accept") | {"agree", "total"},
+    "C03": per_backend("value", "log", "failclass", "nofail", "accept") | {"agree", "agree_vmct", "total"},
     # C04 documented results
     "C04": per_backend("value", "render") | {"front"},
     # C05 accept exactly the well-typed programs, infer the rule's type, reject at compile time
@@ -114,7 +114,7 @@ EVAL_REL = {
     "C06": per_backend("log", "value", "failclass", "nofail"),
     "C13": {"stdout"},
     # C18: ==, rendering, key identity and set membership agree; canonical rendering
-    "C18": per_backend("sameness", "render", "value", "nofail") | {"agree"},
+    "C18": per_backend("sameness", "render", "value", "nofail") | {"agree", "agree_vmct"},
     "C16": per_backend("accept", "value", "failclass", "nofail", "nofault", "hastype") | {"accept", "total"},
 }
 
@@ -180,7 +180,7 @@ SIZES = G + ("sizes", 1)        # composite values and nesting depths around the
 eval_prop("C01", [OBJS, LAZY, OPT, SIZES], [OBJS, LAZY, OPT, SIZES, U1F, U2], 1200, 40000, "deep")
 eval_prop("C02", [PARTIAL, LAZY, OPT, SPEC, SIZES], [PARTIAL2, LAZY, OPT, SPEC, SIZES, OBJS, U1F, U2], 1200, 40000, "deep")
 eval_prop("C04", [BI1], [BI2, PARTIAL, U1F], 0, 20000, "deep")
-eval_prop("C05", [U1S, OVER], [U1F, U2, OPT, OBJS, OVER], 1200, 40000, "deep")
+eval_prop("C05", [U1S, OVER, OBJS], [U1F, U2, OPT, OBJS, OVER], 1200, 40000, "deep")
 eval_prop("C06", [LAZY, PARTIAL], [LAZY, PARTIAL, U1F, U2], 1200, 40000, "deep")
 eval_prop("C16", [OPT], [OPT, U1F])
 SAME = G + ("same", 1)
